@@ -28,6 +28,9 @@ def int_to_chars(i, st = '', chars = ascii_lowercase,
         return ''.join([chars[0] * (length - len(st)), st])
     if i > 0:
         n = len(chars)
+        if n < 2 and not spaces:
+            raise NamingConventionError(
+                "At least two characters are needed to form names without spaces.")
         char_index = i - 1 if spaces else i
         st = int_to_chars(char_index // n,
                           ''.join([chars[char_index % n], st]),
